@@ -85,6 +85,10 @@ def polynomial_from_attributes(
     if len(coefficients):
         # cast first: which terms are all zero is decided in the requested type.
         coefficients = [numpy.asarray(coeff, dtype=dtype) for coeff in coefficients]
+        # one shape for all coefficients: a scalar next to an array is
+        # broadcast like numpy does, whichever term comes first.
+        shape = numpy.broadcast_shapes(*[coeff.shape for coeff in coefficients])
+        coefficients = [numpy.broadcast_to(coeff, shape) for coeff in coefficients]
     exponents, coefficients, names = clean.postprocess_attributes(
         exponents=exponents,
         coefficients=coefficients,
